@@ -3,7 +3,7 @@
 use crate::{gen::*, io::*, spec::*, sym::Sym};
 use alloc::{borrow::Cow, boxed::Box, collections::*, rc::Rc, string::String, sync::Arc, vec::Vec};
 use core::{marker::PhantomData, num::*, ops::{Range, RangeInclusive}, time::Duration};
-use parity_scale_codec::{Compact, Encode, OptionBool};
+use parity_scale_codec::{Compact, Decode, Encode, OptionBool};
 
 macro_rules! enc {
 	($($name:ident: $t:ty, $c:expr, $n:literal, $u:literal;)*) => {$(
@@ -196,6 +196,51 @@ pub mod zst_with_encoding {
 		assert!(r.n == 3 && r.d[0] == 7 && r.d[1] == 5 && r.d[2] == 9);
 		core::mem::forget((v, d));
 	}
+}
+
+/// unsized holders: Box<[T]>, Box<str>, Rc<str>, Arc<[u8]> are transparent too
+#[kani::proof]
+#[kani::unwind(10)]
+pub fn c01q_unsized_holders() {
+	let v = Vec::<u16>::sym(2);
+	let mut exp = Buf::<8>::new();
+	v.spec_enc(&mut exp);
+	let b: Box<[u16]> = v.clone().into_boxed_slice();
+	let mut r = Buf::<8>::new(); b.encode_to(&mut r);
+	assert!(same_bytes(&r, &exp), "Box<[T]> is not transparent");
+	let a: Arc<[u16]> = Arc::from(&v[..]);
+	let mut r = Buf::<8>::new(); a.encode_to(&mut r);
+	assert!(same_bytes(&r, &exp), "Arc<[T]> is not transparent");
+	let s = String::sym(2);
+	let mut exp = Buf::<8>::new();
+	s.spec_enc(&mut exp);
+	let bs: Box<str> = s.clone().into_boxed_str();
+	let mut r = Buf::<8>::new(); bs.encode_to(&mut r);
+	assert!(same_bytes(&r, &exp), "Box<str> is not transparent");
+	let rs: Rc<str> = Rc::from(s.as_str());
+	let mut r = Buf::<8>::new(); rs.encode_to(&mut r);
+	assert!(same_bytes(&r, &exp), "Rc<str> is not transparent");
+	core::mem::forget((v, b, a, s, bs, rs));
+}
+/// tuples of the arities between 4 and 18 (generated by the same macro, spot-checked at 5, 9 and 12)
+#[kani::proof]
+#[kani::unwind(16)]
+pub fn c01q_tuples_mid_arity() {
+	let x: [u8; 12] = kani::any();
+	let y: u16 = kani::any();
+	let t5 = (x[0], y, x[1], (x[2] & 1) == 1, x[3]);
+	let mut r = Buf::<16>::new(); t5.encode_to(&mut r);
+	assert!(r.n == 6 && r.d[0] == x[0] && r.d[1] == (y & 0xff) as u8 && r.d[2] == (y >> 8) as u8 && r.d[3] == x[1] && r.d[4] == (x[2] & 1) && r.d[5] == x[3], "5-tuple is not the concatenation of its fields in order");
+	let t9 = (x[0], x[1], x[2], x[3], x[4], x[5], x[6], x[7], y);
+	let mut r = Buf::<16>::new(); t9.encode_to(&mut r);
+	assert!(r.n == 10 && r.d[7] == x[7] && r.d[8] == (y & 0xff) as u8 && r.d[0] == x[0] && r.d[4] == x[4], "9-tuple is not the concatenation of its fields in order");
+	let t12 = (x[0], x[1], x[2], x[3], x[4], x[5], x[6], x[7], x[8], x[9], x[10], x[11]);
+	let mut r = Buf::<16>::new(); t12.encode_to(&mut r);
+	let i: usize = kani::any();
+	kani::assume(i < 12);
+	assert!(r.n == 12 && r.d[i] == x[i], "12-tuple is not the concatenation of its fields in order");
+	let mut inp = r.bytes();
+	match <(u8, u8, u8, u8, u8, u8, u8, u8, u8, u8, u8, u8)>::decode(&mut inp) { Ok(d) => { assert!(d.0 == x[0] && d.5 == x[5] && d.11 == x[11] && inp.is_empty()); }, Err(_) => { assert!(false); } }
 }
 
 /// negative twin: a wrong model (big-endian u16) must FAIL
